@@ -298,41 +298,61 @@ func (r *resolver) applyDeviation(y *Module, d *Deviation) error {
 	hasDets, _ := target.(HasDetails)
 	hasType, _ := target.(Leafable)
 	hasListDets, _ := target.(HasListDetails)
+	hasMusts, _ := target.(HasMusts)
+	list, _ := target.(*List)
+	notAllowed := func(property string) error {
+		return fmt.Errorf("%s is not a property of %s", property, d.Ident())
+	}
 	if d.Add != nil {
 		if d.Add.configPtr != nil {
+			if hasDets == nil {
+				return notAllowed("config")
+			}
 			if hasDets.IsConfigSet() {
 				return fmt.Errorf("config already set on %s", d.Ident())
 			}
 			hasDets.setConfig(*(d.Add).configPtr)
 		}
 		if d.Add.mandatoryPtr != nil {
+			if hasDets == nil {
+				return notAllowed("mandatory")
+			}
 			if hasDets.IsMandatorySet() {
 				return fmt.Errorf("mandatory already set on %s", d.Ident())
 			}
 			hasDets.setMandatory(*(d.Add).mandatoryPtr)
 		}
 		if d.Add.maxElementsPtr != nil {
+			if hasListDets == nil {
+				return notAllowed("max-elements")
+			}
 			if hasListDets.IsMaxElementsSet() {
 				return fmt.Errorf("max-elements already set on %s", d.Ident())
 			}
 			hasListDets.setMaxElements(*(d.Add).maxElementsPtr)
 		}
 		if d.Add.minElementsPtr != nil {
+			if hasListDets == nil {
+				return notAllowed("min-elements")
+			}
 			if hasListDets.IsMinElementsSet() {
 				return fmt.Errorf("min-elements already set on %s", d.Ident())
 			}
 			hasListDets.setMinElements(*(d.Add).minElementsPtr)
 		}
-		for _, must := range d.Add.musts {
-			target.(HasMusts).addMust(must)
-		}
 		if d.Add.units != "" {
+			if hasType == nil {
+				return notAllowed("units")
+			}
 			if hasType.Units() != "" {
 				return fmt.Errorf("units already set on %s", d.Ident())
 			}
 			hasType.setUnits(d.Add.units)
 		}
 		if d.Add.HasDefault() {
+			if hasType == nil {
+				return notAllowed("default")
+			}
 			if hasType.HasDefault() {
 				return fmt.Errorf("default already set on %s", d.Ident())
 			}
@@ -340,42 +360,69 @@ func (r *resolver) applyDeviation(y *Module, d *Deviation) error {
 				hasType.addDefault(deflt)
 			}
 		}
+		if len(d.Add.unique) > 0 && list == nil {
+			return notAllowed("unique")
+		}
 		for _, unique := range d.Add.unique {
-			target.(*List).unique = append(target.(*List).unique, unique)
+			list.unique = append(list.unique, unique)
+		}
+		if len(d.Add.musts) > 0 && hasMusts == nil {
+			return notAllowed("must")
+		}
+		for _, must := range d.Add.musts {
+			hasMusts.addMust(must)
 		}
 	}
 	if d.Replace != nil {
 		if d.Replace.configPtr != nil {
+			if hasDets == nil {
+				return notAllowed("config")
+			}
 			if !hasDets.IsConfigSet() {
 				return fmt.Errorf("config not set on %s", d.Ident())
 			}
 			hasDets.setConfig(*(d.Replace).configPtr)
 		}
 		if d.Replace.mandatoryPtr != nil {
+			if hasDets == nil {
+				return notAllowed("mandatory")
+			}
 			if !hasDets.IsMandatorySet() {
 				return fmt.Errorf("mandatory not set on %s", d.Ident())
 			}
 			hasDets.setMandatory(*(d.Replace).mandatoryPtr)
 		}
 		if d.Replace.maxElementsPtr != nil {
+			if hasListDets == nil {
+				return notAllowed("max-elements")
+			}
 			if !hasListDets.IsMaxElementsSet() {
 				return fmt.Errorf("max-elements not set on %s", d.Ident())
 			}
 			hasListDets.setMaxElements(*(d.Replace).maxElementsPtr)
 		}
 		if d.Replace.minElementsPtr != nil {
+			if hasListDets == nil {
+				return notAllowed("min-elements")
+			}
 			if !hasListDets.IsMinElementsSet() {
 				return fmt.Errorf("min-elements not set on %s", d.Ident())
 			}
 			hasListDets.setMinElements(*(d.Replace).minElementsPtr)
 		}
 		if d.Replace.units != "" {
+			if hasType == nil {
+				return notAllowed("units")
+			}
 			if hasType.Units() == "" {
 				return fmt.Errorf("units not set on %s", d.Ident())
 			}
 			hasType.setUnits(d.Replace.units)
 		}
 		if d.Replace.HasDefault() {
+			if hasType == nil {
+				return notAllowed("default")
+			}
 			if !hasType.HasDefault() {
 				return fmt.Errorf("default not set on %s", d.Ident())
 			}
@@ -391,6 +438,9 @@ func (r *resolver) applyDeviation(y *Module, d *Deviation) error {
 	}
 	if d.Delete != nil {
 		if d.Delete.units != "" {
+			if hasType == nil {
+				return notAllowed("units")
+			}
 			if hasType.Units() != d.Delete.units {
 				return fmt.Errorf("cannot delete units '%s' != '%s' on %s",
 					d.Delete.units, hasType.Units(), d.Ident())
@@ -398,6 +448,9 @@ func (r *resolver) applyDeviation(y *Module, d *Deviation) error {
 			hasType.setUnits("")
 		}
 		if d.Delete.HasDefault() {
+			if hasType == nil {
+				return notAllowed("default")
+			}
 			if !sameDefault(hasType.DefaultValue(), d.Delete.Default()) {
 				return fmt.Errorf("cannot delete default '%s' != '%s' on %s",
 					d.Delete.Default(), hasType.DefaultValue(),
@@ -405,10 +458,13 @@ func (r *resolver) applyDeviation(y *Module, d *Deviation) error {
 			}
 			hasType.clearDefault()
 		}
+		if len(d.Delete.unique) > 0 && list == nil {
+			return notAllowed("unique")
+		}
 		for _, unique := range d.Delete.unique {
 			found := false
 			var uniques [][]string
-			for _, candidate := range target.(*List).unique {
+			for _, candidate := range list.unique {
 				if isArrayStringEqual(unique, candidate) {
 					found = true
 				} else {
@@ -419,12 +475,15 @@ func (r *resolver) applyDeviation(y *Module, d *Deviation) error {
 				return fmt.Errorf("unique entry %s not found on %s",
 					strings.Join(unique, " "), d.Ident())
 			}
-			target.(*List).unique = uniques
+			list.unique = uniques
+		}
+		if len(d.Delete.musts) > 0 && hasMusts == nil {
+			return notAllowed("must")
 		}
 		for _, must := range d.Delete.musts {
 			found := false
 			var musts []*Must
-			for _, candidate := range target.(HasMusts).Musts() {
+			for _, candidate := range hasMusts.Musts() {
 				if candidate.Expression() == must.Expression() {
 					found = true
 				} else {
@@ -435,7 +494,7 @@ func (r *resolver) applyDeviation(y *Module, d *Deviation) error {
 				return fmt.Errorf("must entry %s not found on %s",
 					must.Expression(), d.Ident())
 			}
-			target.(HasMusts).setMusts(musts)
+			hasMusts.setMusts(musts)
 		}
 
 	}
